@@ -208,6 +208,19 @@ class SimFS:
         self.counts = {}
         self.excl_busy = []  # (thread id, path) of O_EXCL creates that failed with EEXIST
 
+    def _dir_times(self, path, created=False):
+        """With simulated time stamps, directories get theirs from the simulated clock too: the
+        directory an entry was added to or removed from (and a new directory itself)."""
+        src = self.mtime_source
+        if src is None or not isinstance(path, str):
+            return
+        try:
+            t = src()
+            for p in ([path] if created else []) + [os.path.dirname(path.rstrip("/")) or "/"]:
+                self._call("utime", p, ns=(t, t))
+        except (OSError, ValueError, TypeError, KeyError):
+            pass
+
     def _raw_write(self, fd, data):
         mv = memoryview(data)
         while len(mv):
@@ -361,6 +374,8 @@ class SimFS:
                 self.excl_busy.append((threading.get_ident(), ap))
             raise
         self.fd_paths[fd] = ap
+        if kind == "creat":
+            self._dir_times(ap)
         return fd
 
     def p_os_close(self, fd):
@@ -387,10 +402,14 @@ class SimFS:
                 if dir_fd is not None:
                     kw["dir_fd"] = dir_fd
                 return _real[name](path, *a, **kw)
-            self._ev(kind, (_pd(path, dir_fd),), True)
+            ap = _pd(path, dir_fd)
+            self._ev(kind, (ap,), True)
             if dir_fd is not None:
                 kw["dir_fd"] = dir_fd
-            return self._call(name, path, *a, **kw)
+            try:
+                return self._call(name, path, *a, **kw)
+            finally:
+                self._dir_times(ap, created=(kind == "mkdir"))
 
         f.__name__ = name
         return f
@@ -399,8 +418,13 @@ class SimFS:
         def f(src, dst, *a, **kw):
             if not self.active:
                 return _real[name](src, dst, *a, **kw)
-            self._ev(kind, (_pd(src, kw.get("src_dir_fd")), _pd(dst, kw.get("dst_dir_fd"))), True)
-            return self._call(name, src, dst, *a, **kw)
+            a1, a2 = _pd(src, kw.get("src_dir_fd")), _pd(dst, kw.get("dst_dir_fd"))
+            self._ev(kind, (a1, a2), True)
+            try:
+                return self._call(name, src, dst, *a, **kw)
+            finally:
+                self._dir_times(a1)
+                self._dir_times(a2)
 
         f.__name__ = name
         return f
